@@ -7,7 +7,7 @@ RULE = ('points from the C01 domain incl. coincident and k-ulp-apart points on o
         'circle inversion with radius and centre offset over eight decades, points on the circle, the centre itself, double inversion. non-trivial = owned op result differs from its operands')
 TRUSTED = TRUSTED_COMMON
 ASSUMPTIONS = ASSUME_COMMON + ['libm cos/sin/atan2 enter as the model parameter L']
-S3_LEGS = ['distance value, symmetry, = |a-b|, triangle inequality (up to 8 sqrt(eps) scale), inversion laws with conditioning-scaled tolerances: predicates against mpmath']
+S3_LEGS = ['distance value, symmetry, law of cosines, = |a-b| (C13_equals_sub), triangle inequality up to dist_tol (C13_triangle) and the inversion offset (C13_inversion_value) are theorems under cos_acc / sin_acc / atan2_acc; inversion being an involution and fixing the circle are decided by the predicate invert_laws (conditioning-scaled tolerances) only']
 
 def generate(rng, tier):
     n = 240 if tier == 'quick' else 8000
